@@ -65,18 +65,25 @@ class EquationParser(object):
         mode = 'endogenous'
         found_t = False
         for equation in equation_list:
+            # Remove comments (like this one!)
+            comment = ''
+            pos = equation.find('#')
+            if pos > -1:
+                comment = equation[pos:]
+                equation = equation[0:pos]
+            equation = equation.strip()
             # Any usage of 'exogenous' switches over to the Exogenous block
             # I could skip this, but would need to use eval(), which is dangerous with
             # untrusted inputs.
+            # The word only counts outside comments, except that a comment on a line of its own
+            # (like "# Exogenous Variables", as emitted by Model) is also a section marker.
+            # A trailing comment (a variable description) never changes how a line is read.
             if 'exogenous' in equation.lower():
                 mode = 'exogenous'
                 continue
-            # Remove comments (like this one!)
-            pos = equation.find('#')
-            if pos > -1:
-                equation = equation[0:pos]
-            equation = equation.strip()
             if len(equation) == 0:
+                if 'exogenous' in comment.lower():
+                    mode = 'exogenous'
                 continue
             splitted = equation.split('=')
             if len(splitted) < 2:
